@@ -152,11 +152,24 @@ impl ProcessState {
                 }
                 tx
             } else {
-                helpers::unlink(&dbfile).map_err(RedoError::opaque_error)?;
+                // Another first invocation may be creating the database at this
+                // very moment: never remove the file, take the write lock and
+                // create the tables only if they are still missing.
                 db = connect(&e, &dbfile)
                     .map_err(|e| RedoError::new(format!("could not connect: {}", e)))?;
-                let tx = db.transaction().map_err(RedoError::opaque_error)?;
-                create_schema(&tx)?;
+                let tx = db
+                    .transaction_with_behavior(TransactionBehavior::Immediate)
+                    .map_err(RedoError::opaque_error)?;
+                let has_schema: i64 = tx
+                    .query_row(
+                        "select count(*) from sqlite_master where type='table' and name='Schema'",
+                        [],
+                        |row| row.get(0),
+                    )
+                    .map_err(|e| RedoError::wrap(e, "schema version check failed"))?;
+                if has_schema == 0 {
+                    create_schema(&tx)?;
+                }
                 tx
             };
 
